@@ -168,6 +168,17 @@ def exc_name(e):
     return type(e).__name__
 
 
+def observable_tokens(tokens):
+    """property-level view of a by-hand dialogue: messages, final verdict, and whether the
+    object ends still wanting data.  The values (and number) of the intermediate
+    need-more-data requests are an implementation choice: a parser that looks at the version
+    byte before asking for the rest of a reply behaves the same as far as C16 / C17 go."""
+    out = [t for t in tokens if not (t.startswith('N') and t != 'None')]
+    if tokens and tokens[-1].startswith('N') and tokens[-1] != 'None':
+        out.append('starved')
+    return out
+
+
 def drive_object(mods, client, chunks, fuel=16):
     """next_message() / receive_data(chunk) by hand, exactly like the model's `driveObject`:
     returns the list of results ('M<hex>', 'None', 'N<k>', 'E:<Exception>') and the raw
